@@ -31,6 +31,7 @@ type Token struct {
 	errv *Term    // for numbers from Itoa/FormatInt: the integer (sort 64), else nil
 	lit  string   // literal text when the engine knows it
 	engine bool   // built by the engine: attributes are constants where known
+	compact bool  // the compacted form (json.Marshal / json.Compact) of the token with the same identity
 }
 
 type TokMem struct {
